@@ -48,6 +48,15 @@ func zzC08World() (g *zzGen, permuted []parser.K8sObject) {
 		{NamespaceSelector: zzSel("env", "prod")},
 		{IPBlock: &netv1.IPBlock{CIDR: "10.1.0.0/16"}},
 	}
+	if zzC08FreeData {
+		// C09 only: selectors whose text the formats must spell out — a namespace selector made of the name label AND an
+		// expression (not the bare namespace name), a pod selector with a label and an expression with two values
+		peersB = append(peersB, netv1.NetworkPolicyPeer{
+			NamespaceSelector: &metav1.LabelSelector{MatchLabels: map[string]string{zzNsNameLabel: "ns3"},
+				MatchExpressions: []metav1.LabelSelectorRequirement{{Key: "tier", Operator: metav1.LabelSelectorOpNotIn, Values: []string{"restricted"}}}},
+			PodSelector: &metav1.LabelSelector{MatchLabels: map[string]string{"role": "db", "app": "q"},
+				MatchExpressions: []metav1.LabelSelectorRequirement{{Key: "zone", Operator: metav1.LabelSelectorOpIn, Values: []string{"z1", "z2"}}, {Key: "beta", Operator: metav1.LabelSelectorOpDoesNotExist}}}})
+	}
 	portsB := []netv1.NetworkPolicyPort{zzPortNum(corev1.ProtocolTCP, q), zzPortName(corev1.ProtocolTCP, "http")}
 	mk := func(pa, pb []netv1.NetworkPolicyPeer, qa, qb []netv1.NetworkPolicyPort, swapRules bool) []parser.K8sObject {
 		np1 := zzNetpolObj("ns1", "np1", netv1.NetworkPolicySpec{PodSelector: metav1.LabelSelector{MatchLabels: map[string]string{"app": "a"}}}).NetworkPolicy
